@@ -9,14 +9,21 @@ Theorem splice__spec LF s tokens si sj ei ej bs be s' r : 1 <= LF -> Inv s ->
   NoDup tokens ->
   let F n := length (flat_map (toks s) (firstn n (s_blocks s))) in
   let p := (F si + sj)%nat in let q := (F ei + ej)%nat in
-  (forall t, In t tokens -> ~ In t (abs s) \/ In t (firstn (q - p) (skipn p (abs s)))) ->
+  (forall t, In t tokens -> free s t \/ In t (firstn (q - p) (skipn p (abs s)))) ->
   splice_ LF s tokens (Z.of_nat si, Z.of_nat sj) (Z.of_nat ei, Z.of_nat ej) = (s', r) ->
   r = Ok tt /\ Inv s' /\ abs s' = firstn p (abs s) ++ tokens ++ skipn q (abs s) /\
-  (forall t, txt s' t = txt s t).
+  (forall t, txt s' t = txt s t) /\ s_id s' = s_id s /\
+  (forall t, ~ In t (abs s) -> ~ In t tokens -> raw s' t = raw s t) /\
+  (forall t, In t (firstn (q - p) (skipn p (abs s))) -> ~ In t tokens -> raw s' t = None).
 Proof.
-  intros HLF [I L] Hbs Hbe Hsj Hej Hord NDt F p q Hv H.
+  intros HLF [I L] Hbs Hbe Hsj Hej Hord NDt F p q Hvf H.
   unfold splice_ in H. cbv beta iota zeta in H.
-  rewrite (guard_ok s tokens si sj ei ej bs be I Hbs Hbe Hsj Hej Hv) in H.
+  assert (pair_lt (Z.of_nat ei, Z.of_nat ej) (Z.of_nat si, Z.of_nat sj) = false) as Eord by (unfold pair_lt; cbn [fst snd]; lia).
+  rewrite Eord, (has_dup_false tokens NDt) in H.
+  rewrite (guard_ok s tokens si sj ei ej bs be I Hbs Hbe Hsj Hej Hvf) in H.
+  assert (forall t, In t tokens -> ~ In t (abs s) \/ In t (firstn (q - p) (skipn p (abs s)))) as Hv.
+  { intros t Ht. destruct (Hvf t Ht) as [Hf|?]; [left; apply (inv_free_not_in s t I (free_hnd s t Hf))|right; assumption]. }
+  pose proof (g_ndt _ _ I) as NDabs.
   pose proof (nth_error_in_len _ _ _ Hbs) as Lsi. pose proof (nth_error_in_len _ _ _ Hbe) as Lei.
   destruct (Z.eqb_spec (Z.of_nat si) (Z.of_nat ei)) as [Eq|Ne].
   - (* single block *)
@@ -38,11 +45,13 @@ Proof.
       by (unfold q, F, abs; apply flat_skipn_at; assumption).
     assert (skipn p (abs s) = skipn sj T ++ flat_map (toks s) post) as Esp
       by (unfold p, F, abs; apply flat_skipn_at; assumption).
+    assert (firstn (q - p) (skipn p (abs s)) = R) as Erange.
+    { rewrite Esp. replace (q - p)%nat with (ej - sj)%nat by (unfold p, q; lia).
+      rewrite firstn_app, skipn_length. replace (ej - sj - (length T - sj))%nat with 0%nat by lia.
+      cbn [firstn]. apply app_nil_r. }
     assert (forall t, In t tokens -> ~ In t (abs s) \/ In t R) as Hv'.
-    { intros t Ht. destruct (Hv t Ht) as [?|Hr]; [left; assumption|right].
-      rewrite Esp in Hr. replace (q - p)%nat with (ej - sj)%nat in Hr by (unfold p, q; lia).
-      rewrite firstn_app, skipn_length in Hr. replace (ej - sj - (length T - sj))%nat with 0%nat in Hr by lia.
-      cbn [firstn] in Hr. rewrite app_nil_r in Hr. exact Hr. }
+    { intros t Ht. rewrite <- Erange. apply Hv; exact Ht. }
+    assert (p <= q)%nat as Lpq by (unfold p, q; lia).
     assert (sj <= ej <= length T)%nat as Hj by lia.
     pose proof (single_pre s si bs sj ej tokens I Hbs Hj NDt Hv') as P. cbv zeta in P. fold T R NT in P. fold S2 in P.
     destruct P as (I2 & Ea2 & Tb & Hsz2 & Hh2). fold pre post in Ea2.
@@ -51,11 +60,19 @@ Proof.
     { rewrite L, Ea2, Eabs. unfold NT. rewrite !zlen_app. unfold zlen. rewrite firstn_length, skipn_length. lia. }
     assert (abs S2 = firstn p (abs s) ++ tokens ++ skipn q (abs s)) as Efin.
     { rewrite Ea2, Ep, Eq'. unfold NT. rewrite <- !app_assoc. reflexivity. }
+    assert (forall sX, (forall t, ~ In t (abs S2) -> raw sX t = raw S2 t) ->
+              (forall t, ~ In t (abs s) -> ~ In t tokens -> raw sX t = raw s t) /\
+              (forall t, In t (firstn (q - p) (skipn p (abs s))) -> ~ In t tokens -> raw sX t = None)) as Frames.
+    { intros sX HX. destruct (splice_frames (abs s) tokens p q NDabs Lpq) as [N1 N2]. rewrite <- Efin in N1, N2. split.
+      - intros t Hl Ht. rewrite (HX t (N1 t Hl Ht)), Hh2. destruct (in_dec Pos.eq_dec t R) as [Hr|]; [|reflexivity].
+        exfalso. apply Hl. rewrite <- Erange in Hr. apply in_firstn, in_skipn in Hr. exact Hr.
+      - intros t Hr Ht. rewrite (HX t (N2 t Hr Ht)), Hh2. rewrite Erange in Hr.
+        destruct (in_dec Pos.eq_dec t R); [reflexivity|contradiction]. }
     match type of H with context [if ?c then _ else _] => destruct c eqn:EC end.
     + (* fast path *)
       pose proof (fast_path s si bs sj ej tokens I Hbs Hj NDt Hv') as Q. cbv zeta in Q. fold T R NT in Q. fold S2 in Q.
       match type of H with (with_len ?S3 _, _) = _ => set (S3f := S3) in * end.
-      destruct Q as (I3 & Ea3 & Hsz3).
+      destruct Q as (I3 & Ea3 & Hsz3 & Hfr3).
       * intros ENT. apply andb_prop in EC as [EC _]. apply andb_prop in EC as [_ EC]. rewrite ENT in EC.
         apply orb_prop in EC as [EC|EC].
         -- exfalso. assert (0 <= HALF LF) by (unfold HALF; apply Z.div_pos; lia). cbn in EC. lia.
@@ -70,10 +87,13 @@ Proof.
            change (s_len (with_len S3f (s_len S3f + (zlen tokens - Z.of_nat (ej - sj))))) with (s_len s + (zlen tokens - Z.of_nat (ej - sj))).
            rewrite Ea3. symmetry. exact Elen.
         -- change (abs (with_len S3f (s_len S3f + (zlen tokens - Z.of_nat (ej - sj))))) with (abs S3f). rewrite Ea3. exact Efin.
-        -- intro t. apply (Hsz3 t).
+        -- split; [intro t; apply (Hsz3 t)|]. split; [reflexivity|].
+           apply (Frames (with_len S3f (s_len S3f + (zlen tokens - Z.of_nat (ej - sj))))).
+           intros t Hn. change (raw (with_len S3f (s_len S3f + (zlen tokens - Z.of_nat (ej - sj)))) t) with (raw S3f t).
+           unfold raw. rewrite Hfr3; [reflexivity|]. intro Hin. apply Hn. rewrite Ea2. apply in_or_app; right; apply in_or_app; left; exact Hin.
     + (* _update_block *)
       destruct (update_block LF S2 bs) as [s4 r4] eqn:EU.
-      destruct (update_block_spec LF S2 bs s4 r4 HLF I2 Hin2 EU) as (-> & I4 & Ea4 & Hf4 & _ & Hl4).
+      destruct (update_block_spec LF S2 bs s4 r4 HLF I2 Hin2 EU) as (-> & I4 & Ea4 & Hf4 & Hfr4 & Hl4 & Hid4).
       assert (s' = with_len s4 (s_len s4 + (zlen tokens - Z.of_nat (ej - sj))) /\ r = Ok tt) as [-> ->]
         by (injection H as E1 E2; split; symmetry; [exact E1|exact E2]).
       split; [reflexivity|]. split; [split; [apply InvG_with_len; exact I4|]|split].
@@ -81,8 +101,12 @@ Proof.
         change (s_len (with_len s4 (s_len s4 + (zlen tokens - Z.of_nat (ej - sj))))) with (s_len s4 + (zlen tokens - Z.of_nat (ej - sj))).
         rewrite Ea4, Hl4. symmetry. exact Elen.
       * change (abs (with_len s4 (s_len s4 + (zlen tokens - Z.of_nat (ej - sj))))) with (abs s4). rewrite Ea4. exact Efin.
-      * intro t. change (txt (with_len s4 (s_len s4 + (zlen tokens - Z.of_nat (ej - sj)))) t) with (txt s4 t).
-        rewrite (proj2 (Hf4 t)). apply (Hsz2 t).
+      * split; [intro t; change (txt (with_len s4 (s_len s4 + (zlen tokens - Z.of_nat (ej - sj)))) t) with (txt s4 t);
+                 rewrite (proj2 (Hf4 t)); apply (Hsz2 t)|].
+        split; [exact Hid4|].
+        apply (Frames (with_len s4 (s_len s4 + (zlen tokens - Z.of_nat (ej - sj))))).
+        intros t Hn. change (raw (with_len s4 (s_len s4 + (zlen tokens - Z.of_nat (ej - sj)))) t) with (raw s4 t).
+        unfold raw. rewrite (Hfr4 t Hn). reflexivity.
   - (* several blocks *)
     assert (si < ei)%nat as Lt by lia.
     unfold blocks_at in H. rewrite !py_nth_nat, Hbs, Hbe in H by assumption.
@@ -109,28 +133,32 @@ Proof.
     assert (F ei = F si + length Tb + length midtoks)%nat as EF.
     { unfold F. replace ei with (S si + (ei - S si))%nat at 1 by lia. rewrite firstn_add_split, flat_map_app, app_length.
       rewrite (flat_firstn_S _ _ si bs Hbs), app_length. reflexivity. }
-    assert (forall t, In t tokens -> ~ In t (abs s) \/ In t (skipn sj Tb ++ midtoks ++ firstn ej Te)) as Hv'.
-    { intros t Ht. destruct (Hv t Ht) as [?|Hr]; [left; assumption|right].
-      assert (skipn p (abs s) = skipn sj Tb ++ midtoks ++ Te ++ flat_map (toks s) post) as Esp.
+    assert (firstn (q - p) (skipn p (abs s)) = skipn sj Tb ++ midtoks ++ firstn ej Te) as Erange.
+    { assert (skipn p (abs s) = skipn sj Tb ++ midtoks ++ Te ++ flat_map (toks s) post) as Esp.
       { rewrite Eabs. unfold p. fold pre. change (F si) with (length (flat_map (toks s) pre)).
         rewrite skipn_app, skipn_all2 by lia. cbn [app].
         replace (length (flat_map (toks s) pre) + sj - length (flat_map (toks s) pre))%nat with sj by lia.
         rewrite <- !app_assoc, skipn_app. replace (sj - length Tb)%nat with 0%nat by lia. reflexivity. }
-      rewrite Esp in Hr.
-      replace (q - p)%nat with (length (skipn sj Tb) + (length midtoks + ej))%nat in Hr
+      rewrite Esp.
+      replace (q - p)%nat with (length (skipn sj Tb) + (length midtoks + ej))%nat
         by (unfold p, q; rewrite skipn_length; unfold Tb in *; lia).
-      rewrite firstn_app_2, firstn_app_2, firstn_app in Hr. replace (ej - length Te)%nat with 0%nat in Hr by lia.
-      cbn [firstn] in Hr. rewrite app_nil_r in Hr. exact Hr. }
+      rewrite firstn_app_2, firstn_app_2, firstn_app. replace (ej - length Te)%nat with 0%nat by lia.
+      cbn [firstn]. rewrite app_nil_r. reflexivity. }
+    assert (forall t, In t tokens -> ~ In t (abs s) \/ In t (skipn sj Tb ++ midtoks ++ firstn ej Te)) as Hv'.
+    { intros t Ht. rewrite <- Erange. apply Hv; exact Ht. }
+    assert (p <= q)%nat as Lpq by (unfold p, q, Tb in *; lia).
     assert (InvG (eq nb) S3' /\
             abs S3' = flat_map (toks s) pre ++ NT ++ flat_map (toks s) post /\
             nth_error (s_blocks S3') si = Some nb /\
             (forall t, tsz (s_toks S3') t = tsz (s_toks s) t /\ txt S3' t = txt s t) /\
-            s_len S3' = s_len s) as (I3 & Ea3 & Hn3 & Hsz3 & Hl3)
+            s_len S3' = s_len s /\ s_id S3' = s_id s /\
+            (forall t, raw S3' t = if in_dec Pos.eq_dec t (skipn sj Tb ++ midtoks ++ firstn ej Te) then None else raw s t))
+      as (I3 & Ea3 & Hn3 & Hsz3 & Hl3 & Hid3 & Hraw3)
       by exact (multi_pre s si ei bs be sj ej tokens I Lt Hbs Hbe Hsj Hej NDt Hv').
     rewrite py_nth_nat, Hn3 in H by (eapply nth_error_in_len; exact Hn3).
     destruct (update_block LF S3' nb) as [s4 r4] eqn:EU.
     assert (In nb (s_blocks S3')) as Hin3 by (eapply nth_error_In; exact Hn3).
-    destruct (update_block_spec LF S3' nb s4 r4 HLF I3 Hin3 EU) as (-> & I4 & Ea4 & Hf4 & _ & Hl4).
+    destruct (update_block_spec LF S3' nb s4 r4 HLF I3 Hin3 EU) as (-> & I4 & Ea4 & Hf4 & Hfr4 & Hl4 & Hid4).
     match type of H with (with_len s4 ?n, _) = _ => set (n4 := n) in * end.
     assert (s' = with_len s4 n4 /\ r = Ok tt) as [-> ->] by (injection H as E1 E2; split; symmetry; [exact E1|exact E2]).
     split; [reflexivity|]. split; [split; [apply InvG_with_len; exact I4|]|split].
@@ -138,5 +166,14 @@ Proof.
       rewrite Ea4, Ea3. unfold n4. rewrite Hl4, Hl3, L, Eabs. unfold NT. rewrite !zlen_app. unfold zlen.
       rewrite firstn_length, skipn_length. unfold Tb, Te in *. lia.
     + change (abs (with_len s4 n4)) with (abs s4). rewrite Ea4, Ea3, Ep, Eq'. unfold NT. rewrite <- !app_assoc. reflexivity.
-    + intro t. change (txt (with_len s4 n4) t) with (txt s4 t). rewrite (proj2 (Hf4 t)). apply (Hsz3 t).
+    + assert (abs S3' = firstn p (abs s) ++ tokens ++ skipn q (abs s)) as Efin
+        by (rewrite Ea3, Ep, Eq'; unfold NT; rewrite <- !app_assoc; reflexivity).
+      split; [intro t; change (txt (with_len s4 n4) t) with (txt s4 t); rewrite (proj2 (Hf4 t)); apply (Hsz3 t)|].
+      split; [change (s_id (with_len s4 n4)) with (s_id s4); congruence|].
+      destruct (splice_frames (abs s) tokens p q NDabs Lpq) as [N1 N2]. rewrite <- Efin in N1, N2. split.
+      * intros t Hl Ht. change (raw (with_len s4 n4) t) with (raw s4 t). unfold raw at 1. rewrite (Hfr4 t (N1 t Hl Ht)). fold (raw S3' t).
+        rewrite Hraw3. destruct (in_dec Pos.eq_dec t _) as [Hr|]; [|reflexivity].
+        exfalso. apply Hl. rewrite <- Erange in Hr. apply in_firstn, in_skipn in Hr. exact Hr.
+      * intros t Hr Ht. change (raw (with_len s4 n4) t) with (raw s4 t). unfold raw at 1. rewrite (Hfr4 t (N2 t Hr Ht)). fold (raw S3' t).
+        rewrite Hraw3. rewrite Erange in Hr. destruct (in_dec Pos.eq_dec t _); [reflexivity|contradiction].
 Qed.
